@@ -62,11 +62,11 @@ def label_pattern(draw, n, K, task, min_labeled=0, max_labeled=None):
 
 @st.composite
 def candidates(draw, X, yid, ent, allow_feat=True, force=None,
-               wrapper=False, unsorted_idx=False):
+               wrapper=False, unsorted_idx=False, wrapper_arb_idx=False):
     n = len(yid)
     unl = [i for i in range(n) if yid[i] is None]
     modes = ["none", "idx_unl", "idx_unl"]
-    if ent["arb_idx"] and not wrapper:
+    if ent["arb_idx"] and (not wrapper or wrapper_arb_idx):
         modes.append("idx_any")
     if ent["feat"] and allow_feat:
         modes += ["feat", "feat"]
@@ -153,6 +153,16 @@ def gnb_zero_variance(case):
     return eff == "gnb" and _gnb_degenerate(case["X"], case["yid"], extra)
 
 
+def _wrapper_takes_labeled(name):
+    """Index candidates that are already labeled are passed through by the
+    wrappers that keep the whole training set (not by
+    SubSamplingWrapper(exclude_non_subsample=True), which is documented for
+    unlabeled candidates)."""
+    if not poolreg.is_wrapper(name):
+        return False
+    return not poolreg.entry_of(name)["init"].get("exclude_non_subsample")
+
+
 @st.composite
 def pool_case(draw, names, allow_feat=True, max_n=None, force_cand=None,
               encodings=("float_nan",), batch_sizes=None, min_unlabeled=1,
@@ -173,7 +183,9 @@ def pool_case(draw, names, allow_feat=True, max_n=None, force_cand=None,
     cand, cmode = draw(candidates(X, yid, ent, allow_feat=allow_feat,
                                   force=force_cand,
                                   wrapper=poolreg.is_wrapper(name),
-                                  unsorted_idx=use_alt))
+                                  unsorted_idx=use_alt,
+                                  wrapper_arb_idx=_wrapper_takes_labeled(
+                                      name)))
     if cand["mode"] == "feat" and not poolreg.is_wrapper(name) \
             and ent["cls"] not in poolreg.NEEDS_UNLABELED \
             and draw(st.integers(0, 2)) == 0:
@@ -225,7 +237,9 @@ def pool_case(draw, names, allow_feat=True, max_n=None, force_cand=None,
         opts["max_candidates_int"] = draw(st.integers(1, 6))
         opts["max_candidates_float"] = draw(st.sampled_from(
             [0.1, 0.3, 0.5, 0.8, 1.0]))
-        opts["n_jobs"] = draw(st.sampled_from([1, 2, 3, 5]))
+        # -1 is the constructor default: as many chunks as the machine has
+        # cores, i.e. usually more than there are candidates here
+        opts["n_jobs"] = draw(st.sampled_from([1, 2, 3, 5, -1]))
     excl = poolreg.is_wrapper(name) and poolreg.entry_of(name)["init"].get(
         "exclude_non_subsample")
     if ent["sample_weight"] and not excl and draw(st.booleans()):
